@@ -2326,8 +2326,11 @@ def install_default_intrinsics(ex):
 
     def readfile(ex, st, args, pos):
         files = getattr(ex, 'files', {})
+        if not isinstance(args[0], str):
+            raise Unsupported('ReadFile of a non-constant path')
         if args[0] not in files:
-            raise Unsupported('ReadFile of a path not registered with vTempRom')
+            # no such file: (nil, error)
+            return (None, Iface('error', Opaque('no such file'))), st
         src = files[args[0]]
         # a private copy, as a real read would give
         arr = ex.slice_array(st, src)
@@ -2335,6 +2338,40 @@ def install_default_intrinsics(ex):
         return (SliceV(Ptr(oid, ()), src.off, src.len, src.cap), None), st
     I['io/ioutil.ReadFile'] = readfile
     I['os.ReadFile'] = readfile
+
+    def writefile(ex, st, args, pos):
+        if not hasattr(ex, 'files'):
+            ex.files = {}
+        path, data = args[0], args[1]
+        if not isinstance(path, str):
+            raise Unsupported('WriteFile of a non-constant path')
+        if data is None:
+            oid = ex.new_obj(st, (), ex.p.arrtype('uint8', 0))
+            ex.files[path] = SliceV(Ptr(oid, ()), 0, 0, 0)
+        else:
+            arr = ex.slice_array(st, data)
+            oid = ex.new_obj(st, arr, ex.objtype.get(data.ptr.obj))
+            ex.files[path] = SliceV(Ptr(oid, ()), data.off, data.len, data.cap)
+        return None, st
+    I['io/ioutil.WriteFile'] = writefile
+    I['os.WriteFile'] = writefile
+
+    def pure_str(f):
+        def g(ex, st, args, pos):
+            if not all(isinstance(a, str) for a in args):
+                raise Unsupported('string function on an unmodelled string')
+            return f(*args), st
+        return g
+    I['strings.TrimSuffix'] = pure_str(lambda s_, suf: s_[:-len(suf)] if suf and s_.endswith(suf) else s_)
+    I['strings.TrimPrefix'] = pure_str(lambda s_, pre: s_[len(pre):] if pre and s_.startswith(pre) else s_)
+    I['strings.HasSuffix'] = pure_str(lambda s_, suf: s_.endswith(suf))
+    I['strings.HasPrefix'] = pure_str(lambda s_, pre: s_.startswith(pre))
+    I['path/filepath.Ext'] = pure_str(lambda p_: (p_[p_.rfind('.'):] if '.' in p_[p_.rfind('/') + 1:] else ''))
+    I['path/filepath.Base'] = pure_str(lambda p_: p_.rstrip('/').rsplit('/', 1)[-1] or '/')
+
+    # sequential execution: locks are no-ops (goroutines are not modelled at all)
+    for n in ('(*sync.Mutex).Lock', '(*sync.Mutex).Unlock', '(*sync.RWMutex).Lock', '(*sync.RWMutex).Unlock', '(*sync.RWMutex).RLock', '(*sync.RWMutex).RUnlock'):
+        I[n] = lambda ex, st, args, pos: (None, st)
 
     def io_writestring(ex, st, args, pos):
         w, sv = args
